@@ -183,3 +183,30 @@ example : (query 27500 .one 0 (Net.init [.opened [.data (reply ⟨.one, true⟩ 
             playersOnline := 1, playersMaximum := 16, gameVersion := some [0x32, 0x2e, 0x34, 0x30], unused := [] } := by
   rw [C05_query ⟨.one, true⟩ C05_exampleQ1 (by decide)]
   decide
+
+/-! ### the two recorded findings (known_findings.json), as theorems about the model
+
+Replies that are in the Quake formats but outside `Spec.wf`, because the response types cannot hold them.  The
+check probes both on the real code on every run (`props/families/quake.py: FINDING_PROBES`). -/
+
+/-- A numeric field that starts with a minus sign is a `TypeParse` error for every unsigned field: a Quake 1
+line with a negative frag count (`one::Player.score` is a `u16`) fails the whole query. -/
+theorem C05_finding_negative_frags (bits : Nat) (ds : Bytes) :
+    fieldUnsigned bits (some (0x2D :: ds)) = .err .typeParse := by
+  have : parseUnsigned bits (0x2D :: ds) = none := by
+    unfold parseUnsigned
+    split
+    · rename_i r heq
+      injection heq with h1 _
+      exact absurd h1 (by decide)
+    · have hd : isDigit 0x2D = false := by decide
+      simp [hd]
+  simp [fieldUnsigned, this, okOr]
+
+/-- A line (the variables line or a player line) that is not valid UTF-8 is a `PacketBad` error: Quake text is
+byte strings (QuakeWorld names use the bytes ≥ 0x80), the response fields are `String`s read strictly. -/
+theorem C05_finding_non_utf8 (s post : Bytes) (hd : (0x0A : UInt8) ∉ s) (hv : validUtf8 s = false) (b : Buf)
+    (hr : b.rest = s ++ 0x0A :: post) : readStrUntil 0x0A b = .err .packetBad := by
+  unfold readStrUntil readStringWith utf8Dec
+  simp only [hr, findByte_append 0x0A s post hd, List.take_left', hv]
+  rfl
